@@ -27,11 +27,12 @@ PANIC_APIS = [
     (r"^std::panicking::", "panic"),
     (r"^core::option::unwrap_failed$", "panic"),
     (r"^core::result::unwrap_failed$", "panic"),
-    (r"^core::slice::index::.*::index(_mut)?$", "slice-index"),
-    (r"^core::array::.*::index(_mut)?$", "slice-index"),
+    (r"^core::slice::index::(.*::)?index(_mut)?$", "slice-index"),
+    (r"^core::array::(.*::)?index(_mut)?$", "slice-index"),
     (r"^alloc::vec::Vec as core::ops::index::Index(Mut)?::index(_mut)?$", "slice-index"),
     (r"^alloc::vec::.*::index(_mut)?$", "slice-index"),
-    (r"^core::str::traits::.*::index(_mut)?$", "str-index"),
+    (r"^core::str::traits::(.*::)?index(_mut)?$", "str-index"),
+    (r"^core::str::split_at(_mut)?$", "split_at"),
     (r"^alloc::string::.*::index(_mut)?$", "str-index"),
     (r"^std::collections::hash::map::HashMap as core::ops::index::Index::index$", "map-index"),
     (r"^alloc::collections::btree::map::BTreeMap as core::ops::index::Index::index$", "map-index"),
@@ -44,6 +45,13 @@ PANIC_APIS = [
     (r"^alloc::vec::Vec::(remove|insert|swap_remove|drain|split_off|truncate_front)$", "vec-op"),
     (r"^alloc::collections::vec_deque::VecDeque::(drain|split_off|swap|range)$", "vec-op"),
     (r"^alloc::string::String::(remove|insert|insert_str|drain|split_off|replace_range)$", "string-op"),
+    # allocation sized by a value: capacity overflow panics above isize::MAX bytes (and aborts on OOM below it)
+    (r"^alloc::vec::Vec::(with_capacity|reserve|reserve_exact|resize|resize_with)$", "alloc-size"),
+    (r"^alloc::vec::from_elem$", "alloc-size"),
+    (r"^alloc::string::String::(with_capacity|reserve|reserve_exact)$", "alloc-size"),
+    (r"^alloc::collections::vec_deque::VecDeque::(with_capacity|reserve|reserve_exact|resize)$", "alloc-size"),
+    (r"^std::collections::hash::(map::HashMap|set::HashSet)::(with_capacity|reserve)$", "alloc-size"),
+    (r"^alloc::(slice|str)::repeat$", "alloc-size"),
     (r"^core::cell::RefCell::(borrow|borrow_mut)$", "refcell-borrow"),
     (r"^core::num::.*::(pow|abs|div_euclid|rem_euclid|next_power_of_two|ilog2|ilog10|ilog|isqrt|div_ceil|next_multiple_of|strict_\w+)$", "int-op"),
     (r"^core::time::Duration::(from_secs_f32|from_secs_f64|mul_f32|mul_f64|div_f32|div_f64|new)$", "duration-op"),
@@ -453,6 +461,42 @@ def auto_discharge(site):
                             return "dominating guard: divisor > 0"
                         if fop == "Ge" and _cv(r) >= 1:
                             return "dominating guard: divisor >= 1"
+        return None
+    if k == "call:alloc-size":
+        # the size argument: last integer-typed argument (with_capacity(n), from_elem(x, n), reserve(&mut v, n), resize(&mut v, n, x))
+        cands = []
+        for o in t.get("args", []):
+            ty = _operand_ty(fn, o) or ""
+            if ty in ("usize", "u64", "u32"):
+                cands.append(o)
+        if not cands:
+            return None
+        n = fn.sym_operand(cands[0] if "from_elem" not in (t.get("f") or "") else cands[-1])
+        ub = _upper_bound(n, facts)
+        if ub is not None and ub < (1 << 40):
+            return "allocation size bounded by %d" % ub
+        def lenlike(x, d=4):
+            if d <= 0:
+                return False
+            if _len_of(x) is not None or (_is_const(x) and 0 <= _cv(x) < (1 << 40)):
+                return True
+            if x[0] == "call" and re.search(r"::(len|size_hint|capacity|count)$", strip_generics(x[1])):
+                return True
+            if x[0] == "cast" and x[4] == "IntToInt" and x[2] in ("u8", "u16", "u32"):
+                return True
+            if x[0] == "constsym":
+                return True           # a named compile-time constant: an over-large value fails every run, not some input
+            if x[0] == "call" and re.search(r"Option::(unwrap|expect)$", strip_generics(x[1])) and x[2] and x[2][0][0] in ("constsym", "const"):
+                return True
+            if x[0] == "field" and x[2] in (0, "0") and x[1][0] == "bin" and x[1][1].endswith("WithOverflow"):
+                return lenlike(x[1], d)
+            if x[0] == "bin" and x[1] in ("Add", "AddWithOverflow", "Sub", "SubWithOverflow", "Div", "Shr", "Rem", "BitAnd"):
+                return lenlike(x[2], d - 1) and (lenlike(x[3], d - 1) or x[1] in ("Div", "Shr", "Rem"))
+            if x[0] == "bin" and x[1] in ("Mul", "MulWithOverflow"):
+                return lenlike(x[2], d - 1) and _is_const(x[3]) and 0 <= _cv(x[3]) <= 64 or lenlike(x[3], d - 1) and _is_const(x[2]) and 0 <= _cv(x[2]) <= 64
+            return False
+        if lenlike(n):
+            return "allocation size derives from in-memory lengths / small integers"
         return None
     if k == "OverflowNeg":
         a = fn.sym_operand(t["ops"][0])
